@@ -78,6 +78,7 @@ type FuncContract struct {
 	TrustedAccess map[string]string
 	Holds    []*Clause
 	AssumeAtLock []*Clause
+	DepVerified bool // dependency function verified from its own SSA
 	Unverified bool
 	UnverifiedWhy string
 }
@@ -695,6 +696,24 @@ func (cs *Contracts) LoadAll(repo, verif string) error {
 	for _, p := range am {
 		if err := cs.LoadContractFile(p, "", false); err != nil {
 			return err
+		}
+	}
+	// contracts of small dependency functions whose SSA (module cache, pinned version) is verified
+	// like repo code: not assumptions
+	before := map[string]bool{}
+	for k := range cs.funcs {
+		before[k] = true
+	}
+	vm, _ := filepath.Glob(filepath.Join(verif, "contracts", "verified", "*.contract"))
+	for _, p := range vm {
+		if err := cs.LoadContractFile(p, "", false); err != nil {
+			return err
+		}
+	}
+	for k, fc := range cs.funcs {
+		if !before[k] {
+			fc.Assumed = false
+			fc.DepVerified = true
 		}
 	}
 	return nil
